@@ -75,6 +75,29 @@ IsDrange(a, z, b, xs) ==
          /\ \A i \in 1..Len(xs) : Within(xs[i], a, z)
          /\ ~Within(Apply(xs[Len(xs)], b), a, z)
 
+\* ------------------------------------------- whole-day bumps: one movement, several spellings -
+\* "integer n, timedelta(n) and 'nd' give identical lists": an integer n, timedelta(days = n), 'nd'
+\* (and 'kw' = 7k days) denote the same movement; on endpoints for which both spellings are in the
+\* domain they must give the same outcome - whatever the times of day of t0 and t1, however short
+\* the span (less than a day, less than one bump, not a multiple of the bump).
+IsWholeDayBump(b) == \/ b[1] = "int"
+                     \/ b[1] = "td" /\ b[2][2] = 0 /\ b[2][3] = 0
+                     \/ b[1] = "tenor" /\ Len(b[2]) = 1 /\ b[2][1][2] \in {"d", "w"}
+WholeDays(b) == CASE b[1] = "int" -> b[2]
+                  [] b[1] = "td"  -> b[2][1]
+                  [] OTHER        -> IF b[2][1][2] = "w" THEN 7 * b[2][1][1] ELSE b[2][1][1]
+SpellingsOfDays(n) == {<<"int", n>>, <<"td", <<n, 0, 0>>>>, <<"tenor", <<<<n, "d">>>>>>}
+                      \cup (IF n % 7 = 0 THEN {<<"tenor", <<<<n \div 7, "w">>>>>>} ELSE {})
+\* the sibling spellings of whole-day bump b that the quantifier admits on the endpoints a, z
+Siblings(a, z, b) == {c \in SpellingsOfDays(WholeDays(b)) : CaseInDomain(a, z, c)}
+\* the list of a whole-day bump in closed form: a, a + n days, ... as many as whole periods of |n|
+\* days fit into the time between the endpoints (counted in seconds and microseconds, not in days)
+WholePeriods(a, z, n) == LET e == IF Before(a, z) THEN Elapsed(a, z) ELSE Elapsed(z, a)
+                             s == e[1] + (e[2] \div 1000000)
+                         IN  s \div (Abs(n) * 86400)
+IsWholeDayList(a, z, n, xs) == /\ Len(xs) = WholePeriods(a, z, n) + 1
+                               /\ \A i \in 1..Len(xs) : xs[i] = AddDur(a, (i - 1) * n, 0, 0)
+
 \* Named deviation SinglePointWeekend: for t0 = t1 on a weekend and a business-day bump the
 \* statement says both "[t0]" and "weekdays only"; either reading is accepted.
 SinglePointWeekend(a, z, b) == a = z /\ IsBBump(b) /\ ~IsWeekday(a[1])
